@@ -452,6 +452,11 @@ func boundsRule(r *core.Run, ctx *oblig.Ctx, ruleID string, reach map[*ssa.Funct
 	envelopeOK := -1
 	nSites := 0
 	for _, s := range sites {
+		if s.Fn == nil && s.Expanded {
+			// a call the checker expanded inside a helper that was itself expanded everywhere and
+			// dropped: the helper's own sites are mapped to the expanded copies
+			continue
+		}
 		if s.Fn == nil {
 			r.Unresolved("R09.1b: site %s has no enclosing function", s.Pos())
 			continue
@@ -1339,7 +1344,7 @@ func rule096(r *core.Run) {
 			if silent && name == "gofakes3.(*withCORS).ServeHTTP" {
 				// the preflight arm answers with (configured) Access-Control headers only
 				for _, g := range core.GuardsOf(ret) {
-					sg := r.P.SliceOf(g.If.Cond, core.SliceOpts{Depth: -1})
+					sg := r.P.SliceOf(g.If.Cond, core.SliceOpts{Depth: -1, Control: true})
 					if (sg.Has("const:Access-Control-Request-Method") || sg.Has("const:Origin")) && g.Branch {
 						silent = false
 					}
